@@ -308,6 +308,9 @@ def strip_priv(a: Any) -> Any:
 # the exact-type reading, independently of the library and of the model
 
 
+LENIENT_TD = [False]      # strictness check: undeclared keys of a TypedDict input are dropped, not a coercion
+
+
 def has_type(ctx: wire.Ctx, a: dict, x: Any, trust: bool = False) -> bool:
     """`trust`: a record field holding its declared default counts (defaults are used as is, on trust)"""
     k = a["a"]
@@ -357,7 +360,7 @@ def has_type(ctx: wire.Ctx, a: dict, x: Any, trust: bool = False) -> bool:
             return False
         return True
     if k == "typeddict":
-        if type(x) is not dict or any(kk not in a["names"] for kk in x):
+        if type(x) is not dict or (not LENIENT_TD[0] and any(kk not in a["names"] for kk in x)):
             return False
         for n, an, req in zip(a["names"], a["anns"], a["reqs"]):
             if n in x:
@@ -547,6 +550,13 @@ def shard(seed: int, shard_i: int, n: int, opts: dict) -> dict:
                 out = real["out"]
                 stats[mode + ":" + engine.outcome_class(real).split(":")[0]] += 1
                 what = None
+                LENIENT_TD[0] = True
+                x_has_lenient = has_type(ctx, c["ann"], x)
+                LENIENT_TD[0] = False
+                if "valid" in out and c["resolver"] == "signature" and not x_has_lenient and not has_annotated(c["ann"]):
+                    failures.append({"property": "C09", "case": c, "xd": xd, "real": out,
+                                     "what": f"{mode}: under the default signature resolution a value that is not of the annotated "
+                                             f"type was accepted (coerced)"})
                 if "valid" in out:
                     nontrivial.add(engine.case_hash([adesc, xd]))
                     # soundness: the payload is a value of the annotated type
